@@ -817,7 +817,6 @@ def _mismatch_pairs(ctx, family):
                 continue  # e.g. MLPQPolicy documents ValueError for non-Discrete actions: not a case
             pairs.append((f"{regime}/{label}/a-to-b", spec, kw, sb, kw))
             pairs.append((f"{regime}/{label}/b-to-a", sb, kw, spec, kw))
-    # cross-class files are also 'pairs of policies with mismatching parameter shapes'
     return pairs
 
 
@@ -835,6 +834,7 @@ def _round_robin(pairs, cap, rng):
             groups.setdefault(p[0], []).append(p)
     for g in groups.values():
         rng.shuffle(g)
+    cap += len(out)
     while len(out) < cap and any(groups.values()):
         for g in groups.values():
             if g and len(out) < cap:
@@ -846,7 +846,7 @@ def _mismatch_unit(ctx, family):
     from lerax.policy import MLPActorCriticPolicy, MLPQPolicy, MLPSACPolicy
 
     C = {"ac": MLPActorCriticPolicy, "q": MLPQPolicy, "sac": MLPSACPolicy}[family]
-    pairs = _round_robin(_mismatch_pairs(ctx, family), ctx.n(260, 4000), ctx.rng)
+    pairs = _round_robin(_mismatch_pairs(ctx, family), ctx.n(200, 4000), ctx.rng)
     ctx.notes["pairs_generated"] = len(pairs)
     not_constructible = set()
     with _Scratch() as T:
